@@ -678,6 +678,17 @@ def consume_accounting_sites(fb):
             if rv[0] == "bin" and rv[1] in ("Add", "AddWithOverflow", "Sub", "SubWithOverflow"):
                 return roots(rv[2], depth + 1) | roots(rv[3], depth + 1)
             return {("l", l)}
+        # a function whose returned number is the growth of its destination (`Ok(buf.len() - start)`) counts elements, not stream bytes
+        ret_roots = set()
+        for blk in f.blocks:
+            for st in blk["s"]:
+                if st[0] == "=" and st[1][0] == 0 and not st[1][1] and st[2][0] == "agg" and st[2][3] == "Ok" and st[2][4]:
+                    ret_roots |= roots(st[2][4][0])
+        def _is_len(r):
+            ds = [d for d in C.defs(f).get(r[1], [])] if r[0] == "l" else []
+            return len(ds) == 1 and ds[0][0] == "call" and re.search(r"vec::Vec(::)?<.*>::len$", ds[0][2].get("f") or "") is not None
+        if ret_roots and all(_is_len(r) for r in ret_roots):
+            continue
         for b, c in sites:
             want = {r for r in roots(c["args"][1]) if r[0] == "l"}
             pb = {bi for bi, a1, a2 in adds if want and (want <= (roots(a1) | roots(a2)))}
@@ -713,3 +724,105 @@ def consume_accounting_rule(ctx, rule, floor):
                           "name continues in the next fill_buf window the count comes back too small, so offsets derived from it (index "
                           "records, positions) depend on how the source chunks its reads" % f.root, f.loc(s_["block"]))
     ctx.floor(rule, "consume(n) sites in byte-counting scanners", n, floor)
+
+
+GROWTH_CALLEE = re.compile(r"(Read|AsyncReadExt)::(read_to_end|read_to_string)$|vec::Vec(::)?<.*>::len$")
+CONSUMED_CALLEE = re.compile(r"(BufRead|AsyncBufReadExt)::(read_until|read_line)$")
+
+
+def count_meaning(fb, f):
+    """What does the usize a scanner returns in Ok(..) count?  'growth' = elements appended to the destination (Vec::len difference,
+    read_to_end's result), 'consumed' = bytes taken from the stream (a running sum that a consume amount is added to, read_until's
+    result). None when the value has another origin (not classified, never compared)."""
+    ret = []
+    for blk in f.blocks:
+        for st in blk["s"]:
+            if st[0] == "=" and st[1][0] == 0 and not st[1][1] and st[2][0] == "agg" and st[2][3] == "Ok" and st[2][4]:
+                ret.append(st[2][4][0])
+    cons_amounts = set()
+    for b, c in f.calls():
+        if re.search(r"(BufRead::consume|AsyncBufReadExt::consume|BufRead>::consume)$", c.get("f") or "") and len(c["args"]) == 2:
+            l = C.op_local(c["args"][1])
+            if l is not None:
+                cons_amounts.add(l)
+    classes = set()
+    seen = set()
+
+    def walk(op, depth=0):
+        l = C.op_local(op)
+        if l is None:
+            pl = C.op_place(op)
+            l = pl[0] if pl else None
+        if l is None or depth > 8 or l in seen:
+            return
+        seen.add(l)
+        for d in C.defs(f).get(l, []):
+            if d[0] in ("call", "partial-call"):
+                fk = d[2].get("f") or ""
+                if GROWTH_CALLEE.search(fk):
+                    classes.add("growth")
+                elif CONSUMED_CALLEE.search(fk):
+                    classes.add("consumed")
+                elif re.search(r"Try>::branch$|ControlFlow|into_future|poll$|convert::From", fk) or fk.endswith("::from_residual"):
+                    for a in d[2]["args"]:
+                        walk(a, depth + 1)
+                else:
+                    classes.add("other:" + fk.split("::")[-1])
+            elif d[0] in ("=", "partial"):
+                rv = d[3]
+                if rv[0] == "bin" and rv[1] in ("Add", "AddWithOverflow"):
+                    ls = {C.op_local(rv[2]), C.op_local(rv[3])}
+                    src = set()
+                    for o in (rv[2], rv[3]):
+                        ol = C.op_local(o)
+                        if ol is not None:
+                            src.add(ol)
+                            for d2 in C.defs(f).get(ol, []):
+                                if d2[0] == "=" and d2[3][0] == "use":
+                                    src.add(C.op_local(d2[3][1]))
+                    if src & cons_amounts or any(_same_source(f, x, y) for x in src if x is not None for y in cons_amounts):
+                        classes.add("consumed")
+                    for o in (rv[2], rv[3]):
+                        walk(o, depth + 1)
+                else:
+                    for o in R_operands(rv):
+                        walk(o, depth + 1)
+    for o in ret:
+        walk(o)
+    for b, c in f.calls():      # `reader.read_to_end(buf)` in tail position: the callee's result is the function's result
+        d0 = c.get("dest")
+        if d0 is not None and d0[0] == 0 and not d0[1]:
+            fk = c.get("f") or ""
+            if GROWTH_CALLEE.search(fk):
+                classes.add("growth")
+            elif CONSUMED_CALLEE.search(fk):
+                classes.add("consumed")
+            elif not fk.endswith("::from_residual"):      # `?` on the error path: no count is returned there
+                classes.add("other:" + fk.split("::")[-1])
+    base = {c for c in classes if c in ("growth", "consumed")}
+    if len(base) == 1 and not any(c.startswith("other:") for c in classes):
+        return next(iter(base))
+    return None
+
+
+def _same_source(f, x, y):
+    """x and y are copies of one local (a match binding used both as the consume amount and as the addend)"""
+    def src(l, depth=0):
+        out = {l}
+        if depth > 4:
+            return out
+        for d in C.defs(f).get(l, []):
+            if d[0] == "=" and d[3][0] == "use":
+                ol = C.op_local(d[3][1])
+                if ol is None:
+                    pl = C.op_place(d[3][1])
+                    ol = pl[0] if pl else None
+                if ol is not None:
+                    out |= src(ol, depth + 1)
+        return out
+    return bool(src(x) & src(y))
+
+
+def R_operands(rv):
+    from . import rules as _R
+    return _R.rvalue_operands(rv)
